@@ -42,7 +42,7 @@
 //
 // * os.Exit is implemented using panic, causing deferred functions to
 // run.
-package interp // import "golang.org/x/tools/go/ssa/interp"
+package vm
 
 import (
 	"fmt"
@@ -50,14 +50,10 @@ import (
 	"go/types"
 	"log"
 	"os"
-	"reflect"
 	"runtime"
 	"slices"
-	"sync/atomic"
-	_ "unsafe"
 
 	"golang.org/x/tools/go/ssa"
-	"golang.org/x/tools/internal/typeparams"
 )
 
 type continuation int
@@ -90,6 +86,8 @@ type interpreter struct {
 	runtimeErrorString types.Type             // the runtime.errorString type (iff "runtime" is present)
 	sizes              types.Sizes            // the effective type-sizing function
 	goroutines         int32                  // atomically updated
+	m                  *machine               // symbolic state of the current path
+	env                *Env                   // shared, read-only program environment
 }
 
 type deferred struct {
@@ -177,12 +175,6 @@ func (fr *frame) runDefers() {
 // lookupMethod returns the method set for type typ, which may be one
 // of the interpreter's fake types.
 func lookupMethod(i *interpreter, typ types.Type, meth *types.Func) *ssa.Function {
-	switch typ {
-	case rtypeType:
-		return i.rtypeMethods[meth.Id()]
-	case errorType:
-		return i.errorMethods[meth.Id()]
-	}
 	return i.prog.LookupMethod(typ, meth.Pkg(), meth.Name())
 }
 
@@ -195,10 +187,10 @@ func visitInstr(fr *frame, instr ssa.Instruction) continuation {
 		// no-op
 
 	case *ssa.UnOp:
-		fr.env[instr] = unop(instr, fr.get(instr.X))
+		fr.env[instr] = unop(fr, instr, fr.get(instr.X))
 
 	case *ssa.BinOp:
-		fr.env[instr] = binop(instr.Op, instr.X.Type(), fr.get(instr.X), fr.get(instr.Y))
+		fr.env[instr] = binop(fr.i.m, instr.Op, instr.X.Type(), fr.get(instr.X), fr.get(instr.Y))
 
 	case *ssa.Call:
 		fn, args := prepareCall(fr, &instr.Call)
@@ -211,7 +203,7 @@ func visitInstr(fr *frame, instr ssa.Instruction) continuation {
 		fr.env[instr] = fr.get(instr.X) // (can't fail)
 
 	case *ssa.Convert:
-		fr.env[instr] = conv(instr.Type(), instr.X.Type(), fr.get(instr.X))
+		fr.env[instr] = conv(fr.i.m, instr.Type(), instr.X.Type(), fr.get(instr.X))
 
 	case *ssa.SliceToArrayPointer:
 		fr.env[instr] = sliceToArrayPointer(instr.Type(), instr.X.Type(), fr.get(instr.X))
@@ -223,7 +215,7 @@ func visitInstr(fr *frame, instr ssa.Instruction) continuation {
 		fr.env[instr] = fr.get(instr.Tuple).(tuple)[instr.Index]
 
 	case *ssa.Slice:
-		fr.env[instr] = slice(fr.get(instr.X), fr.get(instr.Low), fr.get(instr.High), fr.get(instr.Max))
+		fr.env[instr] = slice(fr.i.m, fr.get(instr.X), fr.get(instr.Low), fr.get(instr.High), fr.get(instr.Max))
 
 	case *ssa.Return:
 		switch len(instr.Results) {
@@ -247,15 +239,32 @@ func visitInstr(fr *frame, instr ssa.Instruction) continuation {
 		panic(targetPanic{fr.get(instr.X)})
 
 	case *ssa.Send:
-		fr.get(instr.Chan).(chan value) <- fr.get(instr.X)
+		fr.i.m.chanSend(fr.get(instr.Chan).(*vchan), fr.get(instr.X))
 
 	case *ssa.Store:
-		store(typeparams.MustDeref(instr.Addr.Type()), fr.get(instr.Addr).(*value), fr.get(instr.Val))
+		switch addr := fr.get(instr.Addr).(type) {
+		case *value:
+			store(mustDeref(instr.Addr.Type()), addr, fr.get(instr.Val))
+		case symAddr:
+			i := fr.i.m.symWriteIndex(addr.idx, len(addr.elems))
+			store(mustDeref(instr.Addr.Type()), &addr.elems[i], fr.get(instr.Val))
+		default:
+			panic(fmt.Sprintf("store: unexpected address %T", addr))
+		}
 
 	case *ssa.If:
 		succ := 1
-		if fr.get(instr.Cond).(bool) {
-			succ = 0
+		switch c := fr.get(instr.Cond).(type) {
+		case bool:
+			if c {
+				succ = 0
+			}
+		case sym:
+			if fr.i.m.branch(c.t) {
+				succ = 0
+			}
+		default:
+			panic(fmt.Sprintf("if: unexpected condition %T", c))
 		}
 		fr.prevBlock, fr.block = fr.block, fr.block.Succs[succ]
 		return kJump
@@ -279,14 +288,17 @@ func visitInstr(fr *frame, instr ssa.Instruction) continuation {
 
 	case *ssa.Go:
 		fn, args := prepareCall(fr, &instr.Call)
-		atomic.AddInt32(&fr.i.goroutines, 1)
-		go func() {
-			call(fr.i, nil, instr.Pos(), fn, args)
-			atomic.AddInt32(&fr.i.goroutines, -1)
-		}()
+		i := fr.i
+		pos := instr.Pos()
+		i.m.spawn(fmt.Sprint(instr.Call.Value), func() {
+			call(i, nil, pos, fn, args)
+		})
+		if i.m.sc.preempt {
+			i.m.yield()
+		}
 
 	case *ssa.MakeChan:
-		fr.env[instr] = make(chan value, asInt64(fr.get(instr.Size)))
+		fr.env[instr] = fr.i.m.newChan(int(fr.i.m.asInt64(fr.get(instr.Size))))
 
 	case *ssa.Alloc:
 		var addr *value
@@ -298,15 +310,23 @@ func visitInstr(fr *frame, instr ssa.Instruction) continuation {
 			// local
 			addr = fr.env[instr].(*value)
 		}
-		*addr = zero(typeparams.MustDeref(instr.Type()))
+		et := mustDeref(instr.Type())
+		*addr = zero(et)
+		fr.i.m.registerAlloc(addr, et)
 
 	case *ssa.MakeSlice:
-		slice := make([]value, asInt64(fr.get(instr.Cap)))
 		tElt := instr.Type().Underlying().(*types.Slice).Elem()
+		n := fr.i.m.asInt64(fr.get(instr.Len))
+		c := fr.i.m.asInt64(fr.get(instr.Cap))
+		if n < 0 || c < n {
+			panic("runtime error: makeslice: len out of range")
+		}
+		c = int64(roundupCap(int(c), fr.i.sizes.Sizeof(tElt)))
+		slice := make([]value, c)
 		for i := range slice {
 			slice[i] = zero(tElt)
 		}
-		fr.env[instr] = slice[:asInt64(fr.get(instr.Len))]
+		fr.env[instr] = slice[:n]
 
 	case *ssa.MakeMap:
 		var reserve int64
@@ -317,9 +337,10 @@ func visitInstr(fr *frame, instr ssa.Instruction) continuation {
 			panic(fmt.Sprintf("ssa.MakeMap.Reserve value %d does not fit in int", reserve))
 		}
 		fr.env[instr] = makeMap(instr.Type().Underlying().(*types.Map).Key(), reserve)
+		_ = reserve
 
 	case *ssa.Range:
-		fr.env[instr] = rangeIter(fr.get(instr.X))
+		fr.env[instr] = rangeIter(fr.i.m, fr.get(instr.X))
 
 	case *ssa.Next:
 		fr.env[instr] = fr.get(instr.Iter).(iter).next()
@@ -333,40 +354,69 @@ func visitInstr(fr *frame, instr ssa.Instruction) continuation {
 	case *ssa.IndexAddr:
 		x := fr.get(instr.X)
 		idx := fr.get(instr.Index)
+		var elems []value
 		switch x := x.(type) {
 		case []value:
-			fr.env[instr] = &x[asInt64(idx)]
+			elems = x
 		case *value: // *array
-			fr.env[instr] = &(*x).(array)[asInt64(idx)]
+			elems = (*x).(array)
 		default:
 			panic(fmt.Sprintf("unexpected x type in IndexAddr: %T", x))
+		}
+		if si, ok := idx.(sym); ok {
+			fr.i.m.checkIndex(si, len(elems))
+			if onlyLoadStoreRefs(instr) {
+				fr.env[instr] = symAddr{elems, si}
+			} else {
+				i := fr.i.m.symWriteIndex(si, len(elems))
+				fr.env[instr] = &elems[i]
+			}
+		} else {
+			fr.env[instr] = &elems[asInt64(idx)]
 		}
 
 	case *ssa.Index:
 		x := fr.get(instr.X)
 		idx := fr.get(instr.Index)
 
-		switch x := x.(type) {
-		case array:
-			fr.env[instr] = x[asInt64(idx)]
-		case string:
-			fr.env[instr] = x[asInt64(idx)]
-		default:
-			panic(fmt.Sprintf("unexpected x type in Index: %T", x))
+		if si, ok := idx.(sym); ok {
+			var elems []value
+			switch x := x.(type) {
+			case array:
+				elems = x
+			case string, symstr:
+				elems = strBytes(x)
+			default:
+				panic(fmt.Sprintf("unexpected x type in Index: %T", x))
+			}
+			fr.i.m.checkIndex(si, len(elems))
+			fr.env[instr] = fr.i.m.symRead(elems, si)
+		} else {
+			switch x := x.(type) {
+			case array:
+				fr.env[instr] = x[asInt64(idx)]
+			case string:
+				fr.env[instr] = x[asInt64(idx)]
+			case symstr:
+				fr.env[instr] = x[asInt64(idx)]
+			default:
+				panic(fmt.Sprintf("unexpected x type in Index: %T", x))
+			}
 		}
 
 	case *ssa.Lookup:
-		fr.env[instr] = lookup(instr, fr.get(instr.X), fr.get(instr.Index))
+		fr.env[instr] = lookup(fr.i.m, instr, fr.get(instr.X), fr.get(instr.Index))
 
 	case *ssa.MapUpdate:
 		m := fr.get(instr.Map)
 		key := fr.get(instr.Key)
 		v := fr.get(instr.Value)
-		switch m := m.(type) {
-		case map[value]value:
-			m[key] = v
-		case *hashmap:
-			m.insert(key.(hashable), v)
+		switch mm := m.(type) {
+		case *omap:
+			if mm == nil {
+				panic("assignment to entry in nil map")
+			}
+			mm.set(fr.i.m, key, v)
 		default:
 			panic(fmt.Sprintf("illegal map type: %T", m))
 		}
@@ -385,40 +435,24 @@ func visitInstr(fr *frame, instr ssa.Instruction) continuation {
 		log.Fatal("unreachable") // phis are processed at block entry
 
 	case *ssa.Select:
-		var cases []reflect.SelectCase
-		if !instr.Blocking {
-			cases = append(cases, reflect.SelectCase{
-				Dir: reflect.SelectDefault,
-			})
-		}
+		var cases []selCase
 		for _, state := range instr.States {
-			var dir reflect.SelectDir
-			if state.Dir == types.RecvOnly {
-				dir = reflect.SelectRecv
-			} else {
-				dir = reflect.SelectSend
+			sc := selCase{send: state.Dir != types.RecvOnly}
+			if c := fr.get(state.Chan); c != nil {
+				sc.c = c.(*vchan)
 			}
-			var send reflect.Value
 			if state.Send != nil {
-				send = reflect.ValueOf(fr.get(state.Send))
+				sc.v = fr.get(state.Send)
 			}
-			cases = append(cases, reflect.SelectCase{
-				Dir:  dir,
-				Chan: reflect.ValueOf(fr.get(state.Chan)),
-				Send: send,
-			})
+			cases = append(cases, sc)
 		}
-		chosen, recv, recvOk := reflect.Select(cases)
-		if !instr.Blocking {
-			chosen-- // default case should have index -1.
-		}
+		chosen, recv, recvOk := fr.i.m.selectOp(cases, instr.Blocking)
 		r := tuple{chosen, recvOk}
 		for i, st := range instr.States {
 			if st.Dir == types.RecvOnly {
 				var v value
 				if i == chosen && recvOk {
-					// No need to copy since send makes an unaliased copy.
-					v = recv.Interface().(value)
+					v = recv
 				} else {
 					v = zero(st.Chan.Type().Underlying().(*types.Chan).Elem())
 				}
@@ -497,7 +531,6 @@ func loc(fset *token.FileSet, pos token.Pos) string {
 func callSSA(i *interpreter, caller *frame, callpos token.Pos, fn *ssa.Function, args []value, env []value) value {
 	if i.mode&EnableTracing != 0 {
 		fset := fn.Prog.Fset
-		// TODO(adonovan): fix: loc() lies for external functions.
 		fmt.Fprintf(os.Stderr, "Entering %s%s.\n", fn, loc(fset, fn.Pos()))
 		suffix := ""
 		if caller != nil {
@@ -510,29 +543,38 @@ func callSSA(i *interpreter, caller *frame, callpos token.Pos, fn *ssa.Function,
 		caller: caller, // for panic/recover
 		fn:     fn,
 	}
-	if fn.Parent() == nil {
-		name := fn.String()
-		if ext := externals[name]; ext != nil {
-			if i.mode&EnableTracing != 0 {
-				fmt.Fprintln(os.Stderr, "\t(external)")
-			}
-			return ext(fr, args)
+	if caller != nil && fn.Name() == "init" && fn.Pkg != nil && fn.Parent() == nil && fn == fn.Pkg.Func("init") {
+		return nil // nested package initialisers: the Env runs them in order
+	}
+	if ext := i.env.intrinsic(fn); ext != nil {
+		return ext(fr, args)
+	}
+	if fn.Blocks == nil {
+		if i.m.inInit {
+			return zero(fn.Signature.Results())
 		}
-		if fn.Blocks == nil {
-			panic("no code for function: " + name)
+		i.m.unsupported("no code for function: %s", fn)
+	}
+	if !i.env.allowed(fn) {
+		if i.m.inInit {
+			// package initialisers: calls into packages that are not modelled
+			// (hive cells, expvar, ...) yield zero values; listed as a stub.
+			return zero(fn.Signature.Results())
 		}
+		i.m.unsupported("call of external function not on the allow-list: %s (from %s)", fn, callerName(caller))
 	}
 
 	// generic function body?
 	if fn.TypeParams().Len() > 0 && len(fn.TypeArgs()) == 0 {
 		panic("interp requires ssa.BuilderMode to include InstantiateGenerics to execute generics")
 	}
+	i.m.noteFunc(fn)
 
 	fr.env = make(map[ssa.Value]value)
 	fr.block = fn.Blocks[0]
 	fr.locals = make([]value, len(fn.Locals))
 	for i, l := range fn.Locals {
-		fr.locals[i] = zero(typeparams.MustDeref(l.Type()))
+		fr.locals[i] = zero(mustDeref(l.Type()))
 		fr.env[l] = &fr.locals[i]
 	}
 	for i, p := range fn.Params {
@@ -551,31 +593,34 @@ func callSSA(i *interpreter, caller *frame, callpos token.Pos, fn *ssa.Function,
 	return fr.result
 }
 
+func callerName(fr *frame) string {
+	if fr == nil || fr.fn == nil {
+		return "?"
+	}
+	return fr.fn.String()
+}
+
+func isEnginePanic(p any) bool {
+	switch p.(type) {
+	case pathAbort, threadKill, wouldBlockPanic:
+		return true
+	}
+	return false
+}
+
 // runFrame executes SSA instructions starting at fr.block and
 // continuing until a return, a panic, or a recovered panic.
-//
-// After a panic, runFrame panics.
-//
-// After a normal return, fr.result contains the result of the call
-// and fr.block is nil.
-//
-// A recovered panic in a function without named return parameters
-// (NRPs) becomes a normal return of the zero value of the function's
-// result type.
-//
-// After a recovered panic in a function with NRPs, fr.result is
-// undefined and fr.block contains the block at which to resume
-// control.
 func runFrame(fr *frame) {
 	defer func() {
 		if fr.block == nil {
 			return // normal return
 		}
-		if fr.i.mode&DisableRecover != 0 {
-			return // let interpreter crash
+		p := recover()
+		if isEnginePanic(p) {
+			panic(p) // unwind without running guest defers
 		}
 		fr.panicking = true
-		fr.panic = recover()
+		fr.panic = p
 		if fr.i.mode&EnableTracing != 0 {
 			fmt.Fprintf(os.Stderr, "Panicking: %T %v.\n", fr.panic, fr.panic)
 		}
@@ -583,12 +628,13 @@ func runFrame(fr *frame) {
 		fr.block = fr.fn.Recover
 	}()
 
+	m := fr.i.m
 	for {
-		if fr.i.mode&EnableTracing != 0 {
-			fmt.Fprintf(os.Stderr, ".%s:\n", fr.block)
-		}
-
 		nonPhis := executePhis(fr)
+		m.steps += int64(len(nonPhis))
+		if m.steps > m.budget {
+			m.abort("budget", "step budget %d exhausted in %s", m.budget, fr.fn)
+		}
 		for _, instr := range nonPhis {
 			if fr.i.mode&EnableTracing != 0 {
 				if v, ok := instr.(ssa.Value); ok {
@@ -620,17 +666,10 @@ func executePhis(fr *frame) []ssa.Instruction {
 	nonPhis := fr.block.Instrs[firstNonPhi:]
 	if firstNonPhi > 0 {
 		phis := fr.block.Instrs[:firstNonPhi]
-		// Execute parallel assignment of phis.
-		//
-		// See "the swap problem" in Briggs et al's "Practical Improvements
-		// to the Construction and Destruction of SSA Form" for discussion.
 		predIndex := slices.Index(fr.block.Preds, fr.prevBlock)
 		fr.phitemps = fr.phitemps[:0]
 		for _, phi := range phis {
 			phi := phi.(*ssa.Phi)
-			if fr.i.mode&EnableTracing != 0 {
-				fmt.Fprintln(os.Stderr, "\t", phi.Name(), "=", phi)
-			}
 			fr.phitemps = append(fr.phitemps, fr.get(phi.Edges[predIndex]))
 		}
 		for i, phi := range phis {
@@ -642,18 +681,16 @@ func executePhis(fr *frame) []ssa.Instruction {
 
 // doRecover implements the recover() built-in.
 func doRecover(caller *frame) value {
-	// recover() must be exactly one level beneath the deferred
-	// function (two levels beneath the panicking function) to
-	// have any effect.  Thus we ignore both "defer recover()" and
-	// "defer f() -> g() -> recover()".
 	if caller.i.mode&DisableRecover == 0 &&
 		caller != nil && !caller.panicking &&
 		caller.caller != nil && caller.caller.panicking {
-		caller.caller.panicking = false
 		p := caller.caller.panic
+		if isEnginePanic(p) {
+			panic(p)
+		}
+		caller.caller.panicking = false
 		caller.caller.panic = nil
 
-		// TODO(adonovan): support runtime.Goexit.
 		switch p := p.(type) {
 		case targetPanic:
 			// The target program explicitly called panic().
@@ -671,84 +708,9 @@ func doRecover(caller *frame) value {
 	return iface{}
 }
 
-// Interpret interprets the Go program whose main package is mainpkg.
-// mode specifies various interpreter options.  filename and args are
-// the initial values of os.Args for the target program.  sizes is the
-// effective type-sizing function for this program.
-//
-// Interpret returns the exit code of the program: 2 for panic (like
-// gc does), or the argument to os.Exit for normal termination.
-//
-// The SSA program must include the "runtime" package.
-//
-// Type parameterized functions must have been built with
-// InstantiateGenerics in the ssa.BuilderMode to be interpreted.
-func Interpret(mainpkg *ssa.Package, mode Mode, sizes types.Sizes, filename string, args []string) (exitCode int) {
-	i := &interpreter{
-		prog:       mainpkg.Prog,
-		globals:    make(map[*ssa.Global]*value),
-		mode:       mode,
-		sizes:      sizes,
-		goroutines: 1,
+func mustDeref(t types.Type) types.Type {
+	if p, ok := t.Underlying().(*types.Pointer); ok {
+		return p.Elem()
 	}
-	runtimePkg := i.prog.ImportedPackage("runtime")
-	if runtimePkg != nil {
-		i.runtimeErrorString = runtimePkg.Type("errorString").Object().Type()
-	}
-
-	initReflect(i)
-
-	i.osArgs = append(i.osArgs, filename)
-	for _, arg := range args {
-		i.osArgs = append(i.osArgs, arg)
-	}
-
-	for _, pkg := range i.prog.AllPackages() {
-		// Initialize global storage.
-		for _, m := range pkg.Members {
-			switch v := m.(type) {
-			case *ssa.Global:
-				cell := zero(typeparams.MustDeref(v.Type()))
-				i.globals[v] = &cell
-			}
-		}
-	}
-
-	// Top-level error handler.
-	exitCode = 2
-	defer func() {
-		if exitCode != 2 || i.mode&DisableRecover != 0 {
-			return
-		}
-		switch p := recover().(type) {
-		case exitPanic:
-			exitCode = int(p)
-			return
-		case targetPanic:
-			fmt.Fprintln(os.Stderr, "panic:", toString(p.v))
-		case runtime.Error:
-			fmt.Fprintln(os.Stderr, "panic:", p.Error())
-		case string:
-			fmt.Fprintln(os.Stderr, "panic:", p)
-		default:
-			fmt.Fprintf(os.Stderr, "panic: unexpected type: %T: %v\n", p, p)
-		}
-
-		// TODO(adonovan): dump panicking interpreter goroutine?
-		// buf := make([]byte, 0x10000)
-		// runtime.Stack(buf, false)
-		// fmt.Fprintln(os.Stderr, string(buf))
-		// (Or dump panicking target goroutine?)
-	}()
-
-	// Run!
-	call(i, nil, token.NoPos, mainpkg.Func("init"), nil)
-	if mainFn := mainpkg.Func("main"); mainFn != nil {
-		call(i, nil, token.NoPos, mainFn, nil)
-		exitCode = 0
-	} else {
-		fmt.Fprintln(os.Stderr, "No main function.")
-		exitCode = 1
-	}
-	return
+	panic(fmt.Sprintf("mustDeref: not a pointer: %s", t))
 }
